@@ -288,7 +288,7 @@ func (r *Raft) onSnapshotTaken(t snapTaken) {
 		// canCompact: min of online matchIndex
 		nowCompact, canCompact := t.meta.index, t.meta.index
 		if r.state == Leader {
-			for _, repl := range r.ldr.repls {
+			for _, repl := range r.ldr.logReaders() {
 				// entry[matchIndex] must stay: replication reads its term
 				// as prevLogTerm, through the log view it already holds
 				if m := repl.status.matchIndex; m == 0 {
